@@ -1,4 +1,5 @@
 import NGF.Model.StatusWrite
+import NGF.Model.StatusDrift
 import NGF.Model.StatusLimits
 import NGF.Model.Proto
 /-
@@ -11,11 +12,14 @@ letters, digits and `_ . : / -` are written `%<hex code point>$`; `~` is a nil p
   statuses = status#status…
 
   model line : kind=<K> ctlr=<c> steps=<n> new=<status> store=<status> sched=<op,op…> pokes=<statuses>
-               ops: g (get error) n (not found) u (update error) c<i> (conflict, store := pokes[i]) o (ok)
+               ops: g (get error) n (not found) u (update error) c<i> (conflict, store := pokes[i]) o (ok);
+               prefix e<i>+ : another writer stored pokes[i] right before this attempt's Get (live drift)
+               optional snap=<status>: status of the object the computed status was derived from (ignored by the model)
   output     : primary=<R> mutating=<R>   with R = calls:<g1,u0,…>/subs:<statuses>/store:<status>/inv:<n>
                (primary = the code in the tree, `Setter.invoke`; mutating = pre-fix regression variant)
   judge line : kind= ctlr= steps= new=<status> calls=<g1,g0,gn,u1,u0…> gets=<statuses> subs=<statuses> done=<1|0|->
                gn = Get answered NotFound; done = what the retry function returned last (- = not observed)
+               optional snap=<status> (see above): used only to NAME a failure (live drift or not)
   output     : ok <stats> | fail <clause> <detail>
   dedup line : conds=<conds>      output: <conds>
   attach line: ctlr= max= cur=<status> targets=<n>   output: own=<n> btpfull=<0|1>
@@ -113,6 +117,18 @@ def parseOp (pokes : List Status) (s : String) : Option Op :=
     pure (.updFail (some p))
   else none
 
+/-- `e<i>+<op>`: the edit `pokes[i]` precedes the attempt -/
+def parseStep (pokes : List Status) (s : String) : Option Step :=
+  if s.startsWith "e" then
+    match s.splitOn "+" with
+    | [e, o] => do
+      let i ← (e.drop 1).toString.toNat?
+      let p ← pokes[i]?
+      let op ← parseOp pokes o
+      pure ⟨some p, op⟩
+    | _ => none
+  else (parseOp pokes s).map fun op => ⟨none, op⟩
+
 def showCall : Call → String
   | .get true => "g1" | .get false => "g0"
   | .update _ _ true => "u1" | .update _ _ false => "u0"
@@ -130,11 +146,11 @@ def modelLine (line : String) : String :=
         field fs "new" >>= parseStatus, field fs "store" >>= parseStatus,
         field fs "pokes" >>= parseStatuses, field fs "sched" with
   | some k, some ctlr, some steps, some new, some store, some pokes, some sched =>
-    match (if sched == "*" then some [] else (sched.splitOn ",").mapM (parseOp pokes)) with
-    | some ops =>
+    match (if sched == "*" then some [] else (sched.splitOn ",").mapM (parseStep pokes)) with
+    | some script =>
       let s : Setter := { kind := k, ctlr := ctlr, cap := new }
-      let f := runRetry Setter.invoke steps (Run.init s store) ops
-      let b := runRetry Setter.invokeMutating steps (Run.init s store) ops
+      let f := runLive Setter.invoke steps (Run.init s store) script
+      let b := runLive Setter.invokeMutating steps (Run.init s store) script
       s!"primary={showRun f} mutating={showRun b}"
     | none => "bad-op"
   | _, _, _, _, _, _, _ => "bad-op"
@@ -171,8 +187,8 @@ structure JStats where
 
 /-- Clauses for one setter invocation that saw `prev`; `sub` is what was submitted, if anything.
 `idx` counts invocations from 1. -/
-def judgeInvocation (k : Kind) (ctlr : String) (lim : Limits) (new prev : Status) (sub : Option Status)
-    (idx : Nat) (st : JStats) : Except String JStats :=
+def judgeInvocation (k : Kind) (ctlr : String) (lim : Limits) (snap : Option Status) (new prev : Status)
+    (sub : Option Status) (idx : Nat) (st : JStats) : Except String JStats :=
   let st := { st with invocations := st.invocations + 1 }
   if k.mode == .whole then
     let same := prev.map wholeKeyOf == new.map wholeKeyOf
@@ -200,21 +216,30 @@ def judgeInvocation (k : Kind) (ctlr : String) (lim : Limits) (new prev : Status
       if fs != fp then
         let nothingLost := fp.all fun e => countOf e fs ≥ countOf e fp
         if idx ≥ 2 && nothingLost then .error s!"retry-duplicates-foreign inv={idx}"
+        -- the LIVE object's foreign entries differ from those of the object the status was computed from,
+        -- and the write did not keep the live ones exactly (content, order, multiplicity)
+        else if snap.any (fun sn => foreign ctlr sn != fp) then
+          .error s!"foreign-entries-altered inv={idx} live={fp.length} submitted={fs.length}"
         else .error s!"foreign-not-preserved inv={idx}"
       else if own ctlr s != new then .error s!"own-not-replaced inv={idx}"
       else if sameOwnList k ctlr prev new || (!dups && sameOwnSet k ctlr prev new) then
         .error s!"noop-violated inv={idx}"
       else match statusViolation lim true s with
-        | some v => .error s!"{v} inv={idx}"
+        | some v =>
+          -- naming only: the computed entries fitted beside the foreign entries of the snapshot, the live
+          -- object holds more foreign entries (another controller added some before the write landed)
+          let drift := v == "entries-exceed-maxItems" && snap.any fun sn =>
+            (foreign ctlr sn).length + new.length ≤ lim.maxEntries && (foreign ctlr sn).length < fp.length
+          .error (s!"{v} inv={idx}" ++ (if drift then s!" drift=1 live={fp.length} own={new.length}" else ""))
         | none => .ok { st with updates := st.updates + 1 }
 
 /-- Walk the observed client calls. `pending` = status returned by a successful Get whose setter
 invocation has not been matched with an Update yet. -/
-def judgeCalls (k : Kind) (ctlr : String) (lim : Limits) (new : Status) :
+def judgeCalls (k : Kind) (ctlr : String) (lim : Limits) (snap : Option Status) (new : Status) :
     List String → List Status → List Status → Option Status → Nat → Bool → JStats → Except String JStats
   | [], _, _, pending, idx, _, st =>
     match pending with
-    | some prev => judgeInvocation k ctlr lim new prev none idx st
+    | some prev => judgeInvocation k ctlr lim snap new prev none idx st
     | none => .ok st
   | c :: cs, gets, subs, pending, idx, finished, st =>
     if finished then .error "call-after-done"
@@ -222,17 +247,17 @@ def judgeCalls (k : Kind) (ctlr : String) (lim : Limits) (new : Status) :
       match pending with
       | some _ => .error "retry-after-noop"     -- setter said "nothing to do" but the loop went on
       | none =>
-        if c == "gn" then judgeCalls k ctlr lim new cs gets subs none idx true st
-        else if c == "g0" then judgeCalls k ctlr lim new cs gets subs none idx false st
+        if c == "gn" then judgeCalls k ctlr lim snap new cs gets subs none idx true st
+        else if c == "g0" then judgeCalls k ctlr lim snap new cs gets subs none idx false st
         else match gets with
-          | g :: gets' => judgeCalls k ctlr lim new cs gets' subs (some g) (idx + 1) false st
+          | g :: gets' => judgeCalls k ctlr lim snap new cs gets' subs (some g) (idx + 1) false st
           | [] => .error "bad-trace"
     else if c == "u1" || c == "u0" then
       match pending, subs with
       | some prev, s :: subs' =>
-        match judgeInvocation k ctlr lim new prev (some s) idx st with
+        match judgeInvocation k ctlr lim snap new prev (some s) idx st with
         | .error e => .error e
-        | .ok st' => judgeCalls k ctlr lim new cs gets subs' none idx (c == "u1") st'
+        | .ok st' => judgeCalls k ctlr lim snap new cs gets subs' none idx (c == "u1") st'
       | none, _ => .error "update-without-fresh-get"
       | _, [] => .error "bad-trace"
     else .error "bad-trace"
@@ -259,7 +284,7 @@ def judgeLine (lims : List Nat) (line : String) : String :=
       let cl := if calls == "*" then [] else calls.splitOn ","
       let ngets := (cl.filter fun c => c.startsWith "g").length
       if ngets > steps then "fail too-many-attempts"
-      else match judgeCalls k ctlr lim new cl gets subs none 0 false {} with
+      else match judgeCalls k ctlr lim (field fs "snap" >>= parseStatus) new cl gets subs none 0 false {} with
         | .ok st =>
           -- "retry-safe": the loop may report "done" only after a successful write, a no-op or NotFound
           let done := field fs "done" == some "1"
